@@ -44,6 +44,8 @@ pub enum Op {
     Note(&'static str, i64),
     SpawnAll,
     JoinAll,
+    /// join only the named threads
+    JoinThese(Vec<&'static str>),
     /// drop the DroppableStore wrapper held by main (C15)
     DropDroppable,
     /// run an op against store #n
@@ -315,7 +317,7 @@ fn exec(ctx: &Arc<Ctx>, si: usize, op: &Op) {
             log(Ev::Ret { op: "stop", a: 1, ok: true, st: vec![] });
         }
         Op::On(i, op) => exec(ctx, *i, op),
-        Op::SpawnAll | Op::JoinAll => unreachable!(),
+        Op::SpawnAll | Op::JoinAll | Op::JoinThese(_) => unreachable!(),
     }
 }
 
@@ -366,22 +368,32 @@ pub fn run(p: &Program) {
                     let c = ctx.clone();
                     let ops = ops.clone();
                     let si = *si;
-                    handles.push(spawn_client(name, move || {
-                        for op in &ops {
-                            exec(&c, si, op);
-                        }
-                    }));
+                    handles.push((
+                        name.clone(),
+                        spawn_client(name, move || {
+                            for op in &ops {
+                                exec(&c, si, op);
+                            }
+                        }),
+                    ));
                 }
             }
             Op::JoinAll => {
-                for h in handles.drain(..) {
+                for (_, h) in handles.drain(..) {
+                    let _ = h.join();
+                }
+            }
+            Op::JoinThese(names) => {
+                let (these, rest): (Vec<_>, Vec<_>) = handles.drain(..).partition(|(n, _)| names.contains(&n.as_str()));
+                handles = rest;
+                for (_, h) in these {
                     let _ = h.join();
                 }
             }
             other => exec(&ctx, 0, other),
         }
     }
-    for h in handles.drain(..) {
+    for (_, h) in handles.drain(..) {
         let _ = h.join();
     }
     // release everything inside the execution: subscriptions first, then the store handles
